@@ -40,7 +40,7 @@ MEASURED = 8
 def plan(tier):
     if tier == "thorough":
         return {"shards": 16, "cases": 1600, "shard_timeout_s": 3000, "shard_budget_s": 1500}
-    return {"shards": 16, "cases": 240, "shard_timeout_s": 900, "shard_budget_s": 150}
+    return {"shards": 16, "cases": 320, "shard_timeout_s": 900, "shard_budget_s": 150}
 
 
 def floors(tier):
@@ -69,12 +69,17 @@ def gen_case(rng, tier, idx):
             [{"cls": "Supertrend", "kw": {"period": p_}}, {"cls": "Counter", "kw": {"input_value": f"Supertrend_{p_}.direction", "count_value": 1 if family != "trend_down" else -1}}],
             [{"cls": "Amorph", "analysis": "positive", "kw": {}}, {"cls": "Counter", "kw": {"input_value": "positive", "count_value": family == "trend_up"}}],
             [{"cls": "Counter", "kw": {"input_value": "volume", "count_value": 0}}],
+            # movement over a source that is missing for the whole trend (Supertrend's opposite-side stop) or that never exists
+            [{"cls": "Supertrend", "kw": {"period": p_}}, {"cls": "Amorph", "analysis": rng.choice(["highest", "lowest", "rising", "mean_falling", "value_range"]),
+                                                            "kw": {"indicator": f"Supertrend_{p_}." + ("short" if family != "trend_down" else "long"), "length": 5}}],
+            [{"cls": "Amorph", "analysis": rng.choice(["highest", "falling", "mean_rising", "highestbar"]), "kw": {"indicator": "no_such_reading", "length": 4}}],
             [{"cls": "Amorph", "analysis": "rising", "kw": {"indicator": "close", "length": 2}}, {"cls": "Counter", "kw": {"input_value": "rising_2", "count_value": family == "trend_up"}}],
         ])
         k = len(members)
     tfkind = rng.choice(["base", "base", "collapse"])
     per_bucket = rng.choice([1, 2, 3]) if tfkind == "collapse" else 1
-    return {"members": members, "hexital": k > 1 or rng.random() < 0.2, "tfkind": tfkind, "per_bucket": per_bucket, "ha": rng.random() < 0.15, "family": family,
+    pre_op = rng.choice(["none", "none", "none", "calc_index_0", "calc_index_mid", "recalculate", "purge_calculate"])
+    return {"members": members, "pre_op": pre_op, "hexital": k > 1 or rng.random() < 0.2, "tfkind": tfkind, "per_bucket": per_bucket, "ha": rng.random() < 0.15, "family": family,
             "seed": rng.randint(0, 10**9), "sizes": [1, 2, 4, 8] + ([16] if tier == "thorough" else [])}
 
 
@@ -124,7 +129,8 @@ def cls_of(c):
 def run_case(case):
     lb = max(configs.lookback(m) for m in case["members"])
     n0 = max(60, 3 * lb) + TAIL
-    stats = {"classes_seen": [cls_of(m) for m in case["members"]], "tfkinds": {case["tfkind"]: 1}, "families": {case.get("family", "walk"): 1}}
+    stats = {"classes_seen": [cls_of(m) for m in case["members"]], "tfkinds": {case["tfkind"]: 1}, "families": {case.get("family", "walk"): 1},
+             "pre_ops": {case.get("pre_op", "none"): 1}}
     viol = []
     per_size = {}
     pb = case["per_bucket"]
@@ -135,6 +141,18 @@ def run_case(case):
             rows, hist = build_rows(case, n0 * mult)
             obj = make(case, MonitoredList(rows_to_candles(rows[:hist])))
             obj.calculate()
+            # maintenance that may leave a cursor / cache behind: the next append must still cost O(1)
+            pre = case.get("pre_op", "none")
+            L_ = len(obj.candles) if not case["hexital"] else len(obj.candles())
+            if pre == "calc_index_0":
+                obj.calculate_index(0) if not case["hexital"] else obj.calculate_index(index=0)
+            elif pre == "calc_index_mid":
+                obj.calculate_index(L_ // 2) if not case["hexital"] else obj.calculate_index(index=L_ // 2)
+            elif pre == "recalculate":
+                obj.recalculate()
+            elif pre == "purge_calculate":
+                obj.purge()
+                obj.calculate()
             ops = []
             pos = hist
             for k in range(3):
@@ -187,7 +205,7 @@ def run_case(case):
     stats["max:work_ratio_largest_vs_smallest"] = round(ratio_max, 3)
     stats["manager_lines_ratio_reported_only"] = {"le_1.25x": 1} if hi["singles"][0]["lines"]["manager"] <= 1.25 * lo["singles"][0]["lines"]["manager"] + 40 else {"grows": 1}
     nontrivial = all(sum(o["calc"].values()) >= 1 for o in hi["singles"])
-    sample = {"members": case["members"], "family": case.get("family"), "hexital": case["hexital"], "tfkind": case["tfkind"], "ha": case["ha"], "n0": n0,
+    sample = {"members": case["members"], "family": case.get("family"), "pre_op": case.get("pre_op"), "hexital": case["hexital"], "tfkind": case["tfkind"], "ha": case["ha"], "n0": n0,
               "per_size": {m_: {"history": v["history"], "single_calls": [o["calls"]["indicator"] for o in v["singles"]],
                                  "single_lines": [o["lines"]["indicator"] for o in v["singles"]], "manager_lines": [o["lines"]["manager"] for o in v["singles"]],
                                  "calc": v["singles"][0]["calc"], "depth": v["singles"][0]["depth"], "chunk_lines": v["chunk"]["lines"]["indicator"]}
